@@ -122,6 +122,7 @@ type ContractDB struct {
 	Expect   map[string]int
 	IfaceMethods map[string]*FuncContract // "Stream.Write"
 	Immutable []*ImmutableDecl
+	NonNil    map[string]bool // package-level variables initialised once to a non-nil value
 }
 
 type ImmutableDecl struct {
@@ -135,7 +136,7 @@ type ImmutableDecl struct {
 
 func newContractDB() *ContractDB {
 	return &ContractDB{Funcs: map[string]*FuncContract{}, Preds: map[string]*Pred{}, NoEffect: map[string]bool{},
-		Ghost: map[string]*GhostField{}, Expect: map[string]int{}, IfaceMethods: map[string]*FuncContract{}}
+		Ghost: map[string]*GhostField{}, Expect: map[string]int{}, IfaceMethods: map[string]*FuncContract{}, NonNil: map[string]bool{}}
 }
 
 var propTagRe = regexp.MustCompile(`^\[(C[0-9]+(?:,C[0-9]+)*)\]\s*`)
@@ -302,6 +303,11 @@ func (db *ContractDB) loadContractFile(path string, pkgPath string, src []byte) 
 				return fmt.Errorf("%s:%d: %v", path, rl.line, err)
 			}
 			db.Preds[name] = &Pred{Name: name, Params: params, Body: body, Text: rest, PkgPath: pkgPath}
+		case "nonnil":
+			for _, f := range strings.Fields(strings.ReplaceAll(rest, ",", " ")) {
+				db.NonNil[pkgPath+"."+f] = true
+			}
+			db.Trusted = append(db.Trusted, fmt.Sprintf("package variables initialised once to a non-nil value and never reassigned (stores outside init are checked syntactically): %s (%s:%d)", rest, filepath.Base(path), rl.line))
 		case "noeffect":
 			for _, f := range strings.Fields(rest) {
 				db.NoEffect[f] = true
